@@ -23,6 +23,10 @@ const (
 	dataDirName       = ".ergo"
 	plansFileName     = "plans.jsonl"
 	oldEventsFileName = "events.jsonl" // Legacy name, kept for backwards compatibility
+
+	// maxEventLineBytes is the longest log line readers accept; writers refuse
+	// to produce a longer one (it would make the whole log unreadable).
+	maxEventLineBytes = 10 * 1024 * 1024
 )
 
 func resolveErgoDir(start string) (string, error) {
@@ -124,8 +128,6 @@ func readEvents(path string) ([]Event, error) {
 	}
 	defer file.Close()
 	verifPoint("read.open", path)
-
-	const maxEventLineBytes = 10 * 1024 * 1024
 
 	var events []Event
 	scanner := bufio.NewScanner(file)
@@ -254,6 +256,9 @@ func appendEvents(path string, events []Event) error {
 		if err != nil {
 			return err
 		}
+		if len(data)+1 > maxEventLineBytes {
+			return fmt.Errorf("event too large: %d bytes (limit %d); shorten the title or body", len(data)+1, maxEventLineBytes)
+		}
 		batch = append(batch, data...)
 		batch = append(batch, '\n')
 	}
@@ -269,6 +274,11 @@ func appendEvents(path string, events []Event) error {
 }
 
 func writeEventsFile(path string, events []Event) error {
+	for _, event := range events {
+		if data, err := json.Marshal(event); err == nil && len(data)+1 > maxEventLineBytes {
+			return fmt.Errorf("event too large: %d bytes (limit %d); shorten the title or body", len(data)+1, maxEventLineBytes)
+		}
+	}
 	file, err := os.OpenFile(path, os.O_CREATE|os.O_WRONLY|os.O_TRUNC, 0644)
 	if err != nil {
 		return err
